@@ -496,38 +496,7 @@ func c6FrontEnds(c *Ctx, lv map[string]int64) {
 	c6StdBridge(c, "R6.2", lv)
 	// zapgrpc
 	gp := "go.uber.org/zap/zapgrpc"
-	grpc := map[string]string{
-		"Info": "delegate.Info", "Infoln": "delegate.Info", "Infof": "delegate.Infof",
-		"Warning": "delegate.Warn", "Warningln": "delegate.Warn", "Warningf": "delegate.Warnf",
-		"Error": "delegate.Error", "Errorln": "delegate.Error", "Errorf": "delegate.Errorf",
-		"Fatal": "fatal.Print", "Fatalln": "fatal.Println", "Fatalf": "fatal.Printf",
-		"Print": "print.Print", "Println": "print.Println", "Printf": "print.Printf",
-	}
-	for m, target := range grpc {
-		fn := c.Method(gp, "Logger", m)
-		if !c.Anchor("R6.2", "zapgrpc.Logger."+m, fn != nil) {
-			continue
-		}
-		parts := strings.Split(target, ".")
-		n := 0
-		var hit ssa.CallInstruction
-		for _, cl := range Calls(fn) {
-			f := CalleeFunc(cl)
-			if f == nil || f.Name() != parts[1] {
-				continue
-			}
-			if Desc(Args(cl)[0]) == "l."+parts[0] {
-				n++
-				hit = cl
-			}
-		}
-		ok := n == 1
-		if ok && strings.HasPrefix(m, "Fatal") {
-			// fatal entries must be forwarded on every path
-			ok = mustPass(fn, func(i ssa.Instruction) bool { return i == ssa.Instruction(hit) })
-		}
-		c.Check(ok, "R6.2", fn.String(), "routes", fn.Pos(), "forwards to l.%s (found %d%s)", target, n, map[bool]string{true: "", false: "; not on every path"}[ok || n != 1])
-	}
+	c6GrpcRoutes(c, "R6.2")
 	// printer methods
 	for m, fld := range map[string]string{"Print": "print", "Printf": "printf", "Println": "print"} {
 		fn := c.Method(gp, "printer", m)
@@ -1433,5 +1402,42 @@ func c6FreshEntryCarriesEntry(c *Ctx, rule string) {
 			}
 			c.Check(!trunc && len(seqs) > 0 && len(bad) == 0, rule, fn.String(), slot, fn.Pos(), "%s explored with a %s receiver: %s (offending: %v)", m, map[bool]string{true: "nil", false: "non-nil"}[nilRecv], map[bool]string{true: "the checked entry handed back has Entry = the entry passed in on every path", false: "the Entry already recorded is not overwritten"}[nilRecv], bad)
 		}
+	}
+}
+
+// c6GrpcRoutes: every method of the gRPC adapter forwards to the delegate method (or printer) of its own level.
+func c6GrpcRoutes(c *Ctx, rule string) {
+	gp := "go.uber.org/zap/zapgrpc"
+	grpc := map[string]string{
+		"Info": "delegate.Info", "Infoln": "delegate.Info", "Infof": "delegate.Infof",
+		"Warning": "delegate.Warn", "Warningln": "delegate.Warn", "Warningf": "delegate.Warnf",
+		"Error": "delegate.Error", "Errorln": "delegate.Error", "Errorf": "delegate.Errorf",
+		"Fatal": "fatal.Print", "Fatalln": "fatal.Println", "Fatalf": "fatal.Printf",
+		"Print": "print.Print", "Println": "print.Println", "Printf": "print.Printf",
+	}
+	for m, target := range grpc {
+		fn := c.Method(gp, "Logger", m)
+		if !c.Anchor(rule, "zapgrpc.Logger."+m, fn != nil) {
+			continue
+		}
+		parts := strings.Split(target, ".")
+		n := 0
+		var hit ssa.CallInstruction
+		for _, cl := range Calls(fn) {
+			f := CalleeFunc(cl)
+			if f == nil || f.Name() != parts[1] {
+				continue
+			}
+			if Desc(Args(cl)[0]) == "l."+parts[0] {
+				n++
+				hit = cl
+			}
+		}
+		ok := n == 1
+		if ok && strings.HasPrefix(m, "Fatal") {
+			// fatal entries must be forwarded on every path
+			ok = mustPass(fn, func(i ssa.Instruction) bool { return i == ssa.Instruction(hit) })
+		}
+		c.Check(ok, rule, fn.String(), "routes", fn.Pos(), "forwards to l.%s (found %d%s)", target, n, map[bool]string{true: "", false: "; not on every path"}[ok || n != 1])
 	}
 }
